@@ -10,7 +10,10 @@ which = {"allele index": "C08 (C01)", "shorter than six": "C17 (short inputs)", 
          "get_axis": "C19", "AxisIter": "C19", "view iterator": "C19", "flush stdout": "C18 (S: write fault on stdout)", "more than one population": "C17 (sample lists)",
          "degenerate (one- or two-entry)": "C17 (statistic x shape grid, overflow-checked binary)", "reject empty spectra": "C17 (absurd shapes)",
          "read-ahead": "C18 (first-chunk enumeration), C12 (dribbled stdin)", "precisions above": "C17 (option bounds)", "wraps around": "C17 (option bounds), C02",
-         "stride computation": "C17 (absurd shapes, overflow-checked binary)", "ends inside a record": "C10 (fault enumeration: truncated-lenprefix)"}
+         "stride computation": "C17 (absurd shapes, overflow-checked binary)", "ends inside a record": "C10 (fault enumeration: truncated-lenprefix)",
+         "header length field": "C17 (absurd shapes: thousands of axes)", "too large to allocate": "C17 (dozens of populations)",
+         "failing write to stderr": "C17 (stderr -> /dev/full)", "absurd --threads": "C17 (option bounds)", "--debug argument dump": "C17 (stderr -> /dev/full)",
+         "sample count differs": "C01 (BCF records with fewer sample columns than the header)"}
 t = "| commit | what failed before | property / check that shows it |\n|---|---|---|\n"
 for h, m in fixes:
     t += "| `%s` | %s | %s |\n" % (h, m[5:], next((v for k, v in which.items() if k in m), ""))
